@@ -1732,6 +1732,13 @@ func nless(a, b string) int {
 		default:
 			return 0
 		}
+	case ae == nil:
+		// A number sorts before anything that is not one. (Comparing such a
+		// pair as strings makes the order cyclic: 2 < 10 as numbers, yet
+		// "10" < "1x" < "2" as strings.)
+		return -1
+	case be == nil:
+		return 1
 	case a < b:
 		return -1
 	case a > b:
